@@ -177,6 +177,9 @@ func genPureSelftest() error {
 	if err := os.WriteFile(filepath.Join(dir, "fns.go"), []byte(st.Source), 0o644); err != nil {
 		return err
 	}
+	if err := os.WriteFile(filepath.Join(dir, "rich.go"), []byte(st.RichSource), 0o644); err != nil {
+		return err
+	}
 	saveRepo, saveRoots := repo, puRepoRoots
 	repo, puRepoRoots = tmp, []string{"pureselftest"}
 	defer func() { repo, puRepoRoots = saveRepo, saveRoots }()
@@ -215,5 +218,9 @@ func genPureSelftest() error {
 	}
 	end := "end Stgutg.Gen.Pure.Selftest\n"
 	out = strings.TrimSuffix(out, end) + b.String() + "\n" + end
-	return writeIfChanged("PureSelftest.lean", out)
+	if err := writeIfChanged("PureSelftest.lean", out); err != nil {
+		return err
+	}
+	// the extended grammar (pure_selftest_rich.go)
+	return genPureSelftestRich(newPuLoader([]string{"pureselftest"}))
 }
